@@ -10,7 +10,7 @@ GOENV = dict(os.environ, GOFLAGS="-mod=mod", GOPROXY="off", GOSUMDB="off", GOTOO
              CARGO_NET_OFFLINE="true", PIP_NO_INDEX="1")
 
 TRUSTED_BASE_COMMON = [
-    "Coq 8.16.1 kernel (coqc; coqchk in the thorough tier of C08); vm_compute used, native_compute not used",
+    "Coq 8.16.1 kernel (coqc; coqchk -o re-checks the property file and its dependencies in the thorough tier of every check); vm_compute used, native_compute not used",
     "no Axiom/Parameter/Admitted in the development (lint in every check); Print Assumptions output recorded per theorem",
     "extraction: Coq extraction plugin + ExtrOcamlBasic directives only (bool, option, unit, list, prod, sumbool, sumor, andb, orb); Z/positive/nat stay inductive; OCaml 4.13.1; hand-written driver ocaml/mvmodel.ml + ocaml/util.ml",
     "translator/ (Go go/ast): transcribes literal tables and skeleton facts from /repo into coq/gen/*_gen.v",
@@ -309,6 +309,18 @@ class Check:
         for n, a in o["assumptions"].items():
             if a != "closed":
                 self.assumptions.append("theorem %s depends on: %s" % (n, a))
+        if self.tier == "thorough" and o["ok"]:
+            # independent re-check of the compiled property file and everything it depends on
+            cmd = "coqchk -silent -o -Q theories MV -Q gen MVGen MV.Props.%s" % (pid or self.pid)
+            with Lock("build"):
+                p = sh("timeout 3000 " + cmd, cwd=os.path.join(ROOT, "coq"), timeout=3100)
+            out = p.stdout or ""
+            summ = out[out.find("CONTEXT SUMMARY"):] if "CONTEXT SUMMARY" in out else out[-800:]
+            self.cov["coqchk"] = {"cmd": "cd coq && " + cmd, "exit": p.returncode, "summary": " ".join(summ.split())[:900]}
+            if p.returncode != 0:
+                self.broken.append("coqchk rejects Props.%s: %s" % (pid or self.pid, out[-1200:]))
+            elif "Axioms: <none>" not in " ".join(summ.split()):
+                self.assumptions.append("coqchk context summary: " + " ".join(summ.split())[:600])
         return o
 
     def tool(self, tool, args, sub=None, count=True, timeout=3000):
